@@ -106,7 +106,8 @@ TextClasses(slot) ==
 UrlClasses == {"valid", "badesc", "semicolon"}
 
 Classes(tr, slot) ==
-  CASE slot \in {"body", "json"}   -> PtrClasses
+  CASE slot = "body"               -> PtrClasses
+    [] slot = "json"               -> PtrClasses \ {"empty"}   \* an empty body has no `"query":` marker: it is the plain sub-format
     [] slot = "startp"             -> PayloadPtrClasses
     [] slot \in {"vars", "ext"}    -> MapClasses
     [] slot = "initp"              -> InitClasses
@@ -142,8 +143,10 @@ Admissible(r) ==
    target.  Trailing bytes are never looked at; more than 10000 levels of
    nesting are a syntax error of the library. *)
 JsonResult(target, cls) ==
-  CASE cls \in Broken \cup {"deep_over", "binary_junk"} -> "err"
-    [] cls = "absent" -> IF target = "ptr" THEN "err" ELSE "ok"   \* subscribe decodes the empty payload: EOF; init skips it
+  CASE cls = "empty" /\ target = "map" -> "ok"     \* GET decodes a parameter only when it is not ""
+    [] cls = "empty" /\ target # "map" -> "err"
+    [] cls \in {"trunc", "deep_over", "binary_junk"} -> "err"
+    [] cls = "absent" -> (IF target = "ptr" THEN "err" ELSE "ok")   \* subscribe decodes the empty payload: EOF; init skips it
     [] cls = "null"   -> (CASE target = "ptr" -> "nil" [] target = "map" -> "ok" [] target = "frame" -> "zero")
     [] cls \in Scalars \cup {"array"} -> "err"
     [] cls \in MemberWrong \cup {"t_num", "t_unknown", "id_num"} -> "err"
